@@ -149,6 +149,7 @@ Proof.
   destruct use, push; cbn; repeat split; intros;
     repeat match goal with
     | H : In _ (_ ++ _) |- _ => apply in_app_or in H; destruct H as [H|H]
+    | H : In _ (map _ _) |- _ => apply in_map_iff in H; destruct H as [? [? H]]; subst
     | H : In _ [_] |- _ => destruct H as [H|[]]; subst
     end; eauto.
 Qed.
